@@ -64,7 +64,7 @@ VARIABLES st, viol
 vars == <<st, ab, acfg, viol>>
 
 Cfg == [minS |-> MinSize, maxS |-> MaxSize, minL |-> MinL, maxL |-> MaxL, sc |-> SC,
-        win |-> 1, tol |-> 0, btol |-> 0]
+        win |-> 1, tol |-> 0, btol |-> 0, ref |-> 0, rtol |-> 0]
 
 \* the configuration is read from acfg (= Cfg in model checking, the trace's cfg in ApertureTrace)
 MnS == acfg.minS
@@ -218,13 +218,13 @@ WithOpens(a, s) == [a EXCEPT !.opening = OpenIds(s), !.settling = IF s.runq = <<
 \* a get/put: sBefore = state at the instant of the sample's publication as far as opens go
 SampleStep(sMid, r, k) ==
   LET abm == WithOpens(AbQ, sMid)
-      ev == [k |-> k, t |-> 0, lo |-> r.lo, hi |-> r.hi, sB |-> r.sB, iB |-> r.iB, hB |-> r.hB,
+      ev == [k |-> k, t |-> 0, u |-> 0, lo |-> r.lo, hi |-> r.hi, sB |-> r.sB, iB |-> r.iB, hB |-> r.hB,
              avg |-> r.avg, a |-> GA(r.s), i |-> GI(r.s)]
   IN IF r.obs
      THEN /\ Note(SampleCheck(abm, ev))
           /\ ab' = WithOpens(SampleUpd(abm, ev), r.s)
-     ELSE /\ Note(BlindCheck(abm, k, 0, GA(r.s), GI(r.s)))
-          /\ ab' = WithOpens(BlindUpd(abm, k, 0, GA(r.s), GI(r.s)), r.s)
+     ELSE /\ Note(BlindCheck(abm, k, 0, 0, GA(r.s), GI(r.s)))
+          /\ ab' = WithOpens(BlindUpd(abm, k, 0, 0, GA(r.s), GI(r.s)), r.s)
 
 PlainStep(s2) ==
   /\ Note(PlainCheck(AbQ, 0, GA(s2), GI(s2)))
